@@ -67,6 +67,11 @@ class Monitor(object):
     def __init__(self, trace):
         self.tr = trace
         self.cfg = trace.config
+        if len(self.cfg.services) > 32:
+            # the per-client service masks have 32 bits: a freshly started daemon configures the first 32 names (in the
+            # configuration's own order, case-insensitive by name) and refuses the rest with an error message
+            eff = sorted(self.cfg.services, key=lambda x: x[0].lower())[:32]
+            self.cfg = proto.Config(eff, self.cfg.timeout, self.cfg.rules, self.cfg.use_class)
         self.viol = []
         self.open = {}
         self.k_of = {}
